@@ -101,6 +101,15 @@ def averaging_rules(ctx, rule):
            'the candidate is looked up with find_group in every named conformation', mc,
            lookup[0] if lookup else fn)
 
+    # a cysteine that is bridged in some conformations only: its pka_value is the
+    # fixed 99.99 there, which must not be averaged with real values
+    acc_facts = [norm(e) for e, pol in facts_at(accum, fn) if pol]
+    sentinel_guard = any('cysteine_bridge' in t or 'titratable' in t for t in acc_facts)
+    ctx.ob(rule('R1'), 'accumulate:bridge-sentinel-not-averaged', sentinel_guard,
+           'a copy of the group whose pKa is the fixed 99.99 of a bridged cysteine is not summed '
+           'with the computed values of the other conformations (conditions on the accumulation: '
+           '%s)' % acc_facts, mc, accum)
+
     # ------------------------------------------------------------------ R2
     enum = [c for c in calls_in(fn, nested=False) if last_attr(c) == 'get_groups_for_calculations']
     if len(enum) != 1:
@@ -230,6 +239,39 @@ def run(ctx):
     ctx.ob('C08.R4', 'top-up:reference-from-all-conformations', all_conf and every,
            'the reference atoms come from all conformations and every conformation is topped up',
            mc, tuc)
+    # the reference table keeps one donor per key; top_up_from_atoms refuses a
+    # donor of another residue type.  If the key does not contain the residue
+    # type, a point mutant that owns the key shadows the donors of the right type
+    refs = [n for n in walk_no_nested(tuc) if isinstance(n, ast.DictComp)]
+    key_has_type = bool(refs) and all(
+        any(isinstance(x, ast.Attribute) and x.attr == 'res_name' for x in ast.walk(r.key)) for r in refs)
+    ctx.ob('C08.R4', 'top-up:donor-key-includes-residue-type', key_has_type,
+           'the table of donor atoms is keyed by atom label and residue type (key: %s), so a '
+           'conformation lacking atoms is completed from a donor of its own residue type when one '
+           'exists' % [norm(r.key) for r in refs], mc, refs[0] if refs else tuc)
+    # add_atom and copy_atom are the two ways an atom enters a container: they
+    # must keep the same container-level books (atoms, chains)
+    aa_f = cc.func('ConformationContainer.add_atom')
+    ca_f = cc.func('ConformationContainer.copy_atom')
+
+    def books(fn):
+        res = set()
+        for c in calls_in(fn, nested=False):
+            if last_attr(c) in ('append', 'add', 'extend', 'insert') and norm(c.func.value).startswith('self.'):
+                res.add(norm(c.func.value))
+        return res
+    missing_books = books(aa_f) - books(ca_f)
+    ctx.ob('C08.R4', 'copy_atom:same-bookkeeping-as-add_atom', not missing_books,
+           'copy_atom updates every container-level list that add_atom updates (missing: %s); a '
+           'chain that reaches a conformation only through topping-up is otherwise unknown to the '
+           'chain list the determinant table loops over' % sorted(missing_books), cc, ca_f)
+    avgf = mc.func('MolecularContainer.average_of_conformations')
+    first_only = [n for n in walk_no_nested(avgf) if isinstance(n, ast.Assign)
+                  and isinstance(n.targets[0], ast.Attribute) and n.targets[0].attr == 'chains'
+                  and 'conformation_names[0]' in norm(n.value)]
+    ctx.ob('C08.R4', 'average:chains-from-all-conformations', not first_only,
+           'the chain list of the averaged container is not taken from the first conformation alone',
+           mc, first_only[0] if first_only else avgf)
     # copy_atom really copies (does not alias the atom into two containers)
     ca = cc.func('ConformationContainer.copy_atom')
     ctx.ob('C08.R4', 'copy_atom:makes-copy',
